@@ -1,5 +1,6 @@
 import BHS.Props.C05
 import BHS.Props.SqlShape
+import BHS.Props.ChainSvc
 open BHS.Props.C05
 #print axioms C05_restart_id
 #print axioms C05_restart_fresh
@@ -14,3 +15,6 @@ open BHS.Props.C05
 #print axioms C05_rows_survive
 #print axioms C05_acknowledged_survive
 #print axioms BHS.Props.SqlShape.add_statements
+#print axioms BHS.Props.ChainSvc.Gen_add_fault_refines
+#print axioms BHS.Props.ChainSvc.C05_struct_valid_generated
+#print axioms BHS.Props.ChainSvc.C05_redeliver_generated
